@@ -538,6 +538,7 @@ func runC08(c *Collector, r *Rng, thorough bool) {
 	c08Keys(c)
 	c08KeyOps(c)
 	c08CsigLists(c)
+	c08ByteLikeValues(c)
 }
 
 func genGoPayloadNonNil(r *Rng) []byte {
@@ -777,6 +778,69 @@ func runC09(c *Collector, r *Rng, thorough bool) {
 		rep := map[string]any{"kind": cs.kind, "data": cs.hex}
 		if d.reerr != nil || !bytes.Equal(d.reenc, data) {
 			c.Fail("C09/reencode-differs", fmt.Sprintf("an accepted message with an indefinite-length item is re-encoded to %x (%v): more than the width of a length prefix has changed", d.reenc, d.reerr), rep)
+		}
+	}
+	// a countersignature nested in an unprotected bucket, its own buckets spelled by another encoder (map entries in
+	// another order, a length prefix wider than needed, an integer in a wider head), one level and two levels deep: the
+	// decoded holder retains exactly the bytes of its element, and they come out again when only the enclosing bucket's
+	// retained bytes are discarded
+	for _, label := range []int64{11, 7} {
+		innerP := wBstr(wMap(-1, wInt(4, -1), &W{Maj: 2, Width: 1, Str: []byte("11")}, wInt(1, -1), wInt(-7, 1)).Ser(), 1)
+		innerU := wMap(-1, wInt(-70060, 2), wTstr("x", 1))
+		inner := wArr(-1, innerP.Clone(), innerU.Clone(), &W{Maj: 2, Width: 1, Str: []byte{5, 5}})
+		mid := wArr(-1, innerP.Clone(), wMap(-1, wInt(label, -1), inner.Clone()), &W{Maj: 2, Width: 0, Str: []byte{6, 6}})
+		pb := wBstr(wMap(-1, wInt(1, -1), wInt(-7, -1)).Ser(), -1)
+		for depth, nested := range []*W{inner, mid} {
+			data := wTag(18, -1, wArr(-1, pb.Clone(), wMap(-1, wInt(label, -1), nested.Clone()), wBstr([]byte("p"), -1), wBstr([]byte{1, 2}, -1))).Ser()
+			d := decodeCase(c, "nested-countersignature-spelling", "DSign1", data)
+			if d.err != nil || d.paniced {
+				continue
+			}
+			rep := map[string]any{"data": hx(data), "label": label, "depth": depth + 1}
+			cs, _ := d.s1.Headers.Unprotected[label].(*cose.Countersignature)
+			if cs == nil {
+				continue
+			}
+			wantP, wantU := nested.Kids[0].Ser(), nested.Kids[1].Ser()
+			if !bytes.Equal(cs.Headers.RawProtected, wantP) || !bytes.Equal(cs.Headers.RawUnprotected, wantU) {
+				c.Fail("C09/decoded-differs", fmt.Sprintf("a nested countersignature retains protected bytes %x and unprotected bytes %x; its element on the wire has %x and %x", cs.Headers.RawProtected, cs.Headers.RawUnprotected, wantP, wantU), rep)
+			}
+			if d.reerr != nil || !bytes.Equal(d.reenc, renorm("DSign1", mustParse(data))) {
+				c.Fail("C09/reencode-differs", fmt.Sprintf("re-encoding changed more than length prefixes of payload / signature: %x (%v)", d.reenc, d.reerr), rep)
+			}
+			// only the enclosing bucket's retained bytes discarded: the nested holder still reproduces its element
+			d2 := decodeKind("DSign1", data)
+			d2.s1.Headers.RawUnprotected = nil
+			if out, err := d2.s1.MarshalCBOR(); err == nil {
+				if w, perr := refParseFull(out); perr == nil && len(w.Kids) == 1 && len(w.Kids[0].Kids) == 4 {
+					um := w.Kids[0].Kids[1]
+					found := false
+					for q := 0; q+1 < len(um.Kids); q += 2 {
+						if um.Kids[q].Maj == 0 && int64(um.Kids[q].Val) == label {
+							found = true
+							el := um.Kids[q+1]
+							if el.Maj != 4 || len(el.Kids) != 3 || !bytes.Equal(el.Kids[0].Ser(), wantP) || !bytes.Equal(el.Kids[1].Ser(), wantU) {
+								c.Fail("C09/reencode-differs", fmt.Sprintf("with the enclosing bucket's retained bytes discarded the nested countersignature is written as %x; its buckets on the wire were %x and %x", el.Ser(), wantP, wantU), rep)
+							}
+						}
+					}
+					if !found {
+						c.Fail("C09/reencode-differs", "with the enclosing bucket's retained bytes discarded the nested countersignature is gone", rep)
+					}
+				}
+			}
+		}
+	}
+	// null and undefined in the signatures array of a COSE_Sign, alone and next to real signatures: refused, or
+	// reproduced
+	for _, hexs := range []string{"d8628440a0456865" + "6c6c6f81f6", "d8628440a04568656c6c6f81f7", "d8628440a04568656c6c6f82" + "8343a10126a0420102" + "f6", "d8628440a04568656c6c6f82f6" + "8343a10126a0420102", "d8628440a04568656c6c6f83" + "8343a10126a0420102" + "f7" + "8343a10126a0420102"} {
+		data := unhex(hexs)
+		d := decodeCase(c, "null-signature-entries", "DSignMsg", data)
+		if d.err != nil || d.paniced {
+			continue
+		}
+		if d.reerr != nil || !bytes.Equal(d.reenc, data) {
+			c.Fail("C09/reencode-refused", fmt.Sprintf("a COSE_Sign with a null / undefined entry in its signatures array was accepted; re-encoding the decoded message gives %x (%v)", d.reenc, d.reerr), map[string]any{"data": hexs})
 		}
 	}
 	// lists of two and three different countersignatures (labels 7 and 11) in every layer of canonical messages: every
@@ -1482,4 +1546,87 @@ func c08CsigLists(c *Collector) {
 			}
 		}
 	}
+}
+
+type c08Named []byte
+
+// c08ByteLikeValues: the byte-string parameters (kid, IV, Partial IV, abbreviated countersignatures) given as Go values
+// that look like byte slices but are not []byte - named slices, raw CBOR, cbor.ByteString, byte arrays: whatever an
+// encoder or Sign helper accepts and emits, the decoder accepts, and the parameter comes back as the octets that went in.
+func c08ByteLikeValues(c *Collector) {
+	vals := []struct {
+		name   string
+		v      any
+		octets []byte
+	}{
+		{"[]byte", []byte{1, 2}, []byte{1, 2}}, {"named slice", c08Named{1, 2}, []byte{1, 2}}, {"raw CBOR of an integer", cbor.RawMessage{0x01}, []byte{0x01}},
+		{"raw CBOR of a byte string", cbor.RawMessage{0x41, 0x01}, []byte{0x41, 0x01}}, {"raw CBOR of a map", cbor.RawMessage{0xa0}, []byte{0xa0}}, {"cbor.ByteString", cbor.ByteString("ab"), []byte("ab")},
+		{"byte array", [2]byte{1, 2}, []byte{1, 2}}, {"[]uint8 nil", []byte(nil), nil}, {"string", "ab", nil},
+	}
+	for _, label := range []int64{4, 5, 6, 9, 12} {
+		for _, v := range vals {
+			for _, inProtected := range []bool{true, false} {
+				if inProtected && (label == 9 || label == 12) {
+					continue
+				}
+				h := cose.Headers{Protected: cose.ProtectedHeader{cose.HeaderLabelAlgorithm: cose.AlgorithmES256}, Unprotected: cose.UnprotectedHeader{}}
+				if inProtected {
+					h.Protected[label] = v.v
+				} else {
+					h.Unprotected[label] = v.v
+				}
+				sg := &spySigner{alg: -7, kind: SOk, sig: []byte{1, 2}}
+				var out []byte
+				var err error
+				if p, _ := protect(func() { out, err = cose.Sign1(nil, sg, h, []byte("p"), nil) }); p {
+					c.Fail("C08/panic", "Sign1 panicked", map[string]any{"label": label, "value": v.name})
+					continue
+				}
+				c.Eval("byte-like-values", fmt.Sprint(label, v.name, inProtected), true)
+				if err != nil {
+					continue
+				}
+				rep := map[string]any{"label": label, "value": v.name, "protected": inProtected, "out": hx(out)}
+				var back cose.Sign1Message
+				if derr := back.UnmarshalCBOR(out); derr != nil {
+					c.Fail("C08/helper-not-decodable", fmt.Sprintf("Sign1 accepted parameter %d given as %s and returned bytes its own decoder refuses: %v", label, v.name, derr), rep)
+					continue
+				}
+				var got any
+				if inProtected {
+					got = back.Headers.Protected[label]
+				} else {
+					got = back.Headers.Unprotected[label]
+				}
+				if gb, ok := got.([]byte); !ok || !bytes.Equal(gb, v.octets) {
+					c.Fail("C08/not-equivalent", fmt.Sprintf("parameter %d given as %s (octets %x) comes back as %T %v", label, v.name, v.octets, got, got), rep)
+				}
+			}
+		}
+	}
+	// the body layer of a COSE_Sign is a layer like any other: IV in one bucket and Partial IV in the other is refused by
+	// the encoder, as it is by the decoder
+	for _, swap := range []bool{false, true} {
+		p, u := cose.ProtectedHeader{int64(5): []byte{1}}, cose.UnprotectedHeader{int64(6): []byte{2}}
+		if swap {
+			p, u = cose.ProtectedHeader{int64(6): []byte{1}}, cose.UnprotectedHeader{int64(5): []byte{}}
+		}
+		sm := &cose.SignMessage{Headers: cose.Headers{Protected: p, Unprotected: u}, Payload: []byte("p"), Signatures: []*cose.Signature{{Headers: cose.Headers{Protected: cose.ProtectedHeader{cose.HeaderLabelAlgorithm: cose.AlgorithmES256}}, Signature: []byte{1}}}}
+		out, err := sm.MarshalCBOR()
+		c.Eval("signmsg-body-iv-split", fmt.Sprint(swap), true)
+		if err == nil {
+			var back cose.SignMessage
+			if derr := back.UnmarshalCBOR(out); derr != nil {
+				c.Fail("C08/not-decodable", "SignMessage.MarshalCBOR returned bytes its own decoder refuses: "+derr.Error(), map[string]any{"out": hx(out)})
+			}
+		}
+	}
+}
+
+func mustParse(b []byte) *W {
+	w, err := refParseFull(b)
+	if err != nil {
+		return &W{}
+	}
+	return w
 }
